@@ -96,6 +96,19 @@ Section C09.
     size_of s = length (row_names s) * length (span s) + match kind s with CLinker extra => extra | _ => 0 end.
   Proof. exact (values_stack s). Qed.
 
+  (* values replacement: an ACCEPTED obj.values = A (A of shape (#variables, #periods), as many cells as that) leaves in the i-th
+     declared variable exactly row i of A cast cell by cell (first by A.astype(dtype_i), then by the in-place copy), with the
+     variable's dtype and one cell per period; every other series is untouched *)
+  Theorem C09_values_setter_array_content r m dt cells s s' :
+    Inv s -> InvD s -> NoDup (row_names s) -> length cells = r * m ->
+    values_setter pycast arrcast infer (OArr [r; m] dt cells) s = (s', Ret tt) ->
+    Forall2 (fun x row => exists v c1 c2,
+               assoc x (vars s) = Some v /\ cast_all (arrcast dt (vdtype v)) row = Ret c1 /\
+               cast_all (arrcast (vdtype v) (vdtype v)) c1 = Ret c2 /\
+               assoc x (vars s') = Some (mkVar (vdtype v) [length (span s)] c2)) (row_names s) (chunks m r cells) /\
+    (forall y, ~ In y (row_names s) -> assoc y (vars s') = assoc y (vars s)).
+  Proof. exact (values_setter_array_content pycast arrcast infer r m dt cells s s'). Qed.
+
   (* a raising single-variable operation leaves the whole state unchanged unless its class is one raised by an
      element cast (then only leading cells of the addressed series are written: C09_partial_write_refuted) *)
   Theorem C09_failed_single_assignment_no_change o s s' e :
@@ -229,6 +242,7 @@ Print Assumptions C09_span_kept.
 Print Assumptions C09_declaration_order_kept.
 Print Assumptions C09_add_variable_appends.
 Print Assumptions C09_values_stack.
+Print Assumptions C09_values_setter_array_content.
 Print Assumptions C09_failed_single_assignment_no_change.
 Print Assumptions C09_add_variable_atomic.
 Print Assumptions C09_duplicate_name_rejected.
@@ -249,5 +263,6 @@ Print Assumptions C09_strict_values_setter_blocked_refuted.
 Print Assumptions C09_values_setter_reached.
 Print Assumptions w0_inv.
 Print Assumptions w0_invD.
+Print Assumptions values_setter_content_instance.
 Print Assumptions strict_hypotheses_satisfiable.
 Print Assumptions m0_inv.
